@@ -156,6 +156,7 @@ type GuardDecl struct {
 	Ghost   string
 	Mutex   string // "by mutex NAME": guarded by the package-level mutex NAME (ghost lock state of that mutex)
 	Atomic  bool   // "by atomic": every access must go through sync/atomic (a plain access fails)
+	WritesOnly bool // "guarded writes ...": only writes need the guard (single-writer fields whose owner reads them without the lock)
 }
 
 func (g *GuardDecl) matches(structName, field string) bool {
@@ -535,8 +536,13 @@ func (cf *ContractFile) parseOne(path string) error {
 			if !ok {
 				return fail(fmt.Errorf("guarded PATTERNS by GHOST"))
 			}
+			writesOnly := false
+			if w, ok := strings.CutPrefix(strings.TrimSpace(l), "writes "); ok {
+				writesOnly = true
+				l = w
+			}
 			for _, pat := range strings.Fields(l) {
-				g := &GuardDecl{Pattern: pat, Ghost: strings.TrimSpace(r)}
+				g := &GuardDecl{Pattern: pat, Ghost: strings.TrimSpace(r), WritesOnly: writesOnly}
 				if m, ok := strings.CutPrefix(g.Ghost, "mutex "); ok {
 					g.Mutex, g.Ghost = strings.TrimSpace(m), ""
 				} else if g.Ghost == "atomic" {
